@@ -1,7 +1,8 @@
 """Property C08 — tie A: the lock / call graph of package io is REGENERATED from the Go sources on every run.
 
 lockgraph_step(check, ctx)
-    builds harness/cmd/owlockgraph (go/parser + go/ast only; package io does not type-check without libhdf5),
+    builds harness/cmd/owlockgraph (go/parser + go/ast only; package io does not type-check without libhdf5; a function
+    literal handed to a `lock…(); defer unlock…(); body()` helper is a node called BY THE HELPER, see the extractor's header),
     runs it on <repo>/io and rewrites lean/OW/Gen/IoLockGraph.lean when the text differs (under the lake lock, so that no
     concurrent `lake build` sees a half-written file). The generated file ends with
         theorem ioLockGraph_ok : lockCheck ioLockGraph = true := by decide +kernel
